@@ -1540,6 +1540,46 @@ class Unit:
         text = splice_fn(text, self._splice_for(fname, variant, icfg.get("owner", "")), fname, vacuity)
         return Chunk("repo", label, text, relfile, (l1, l2), sha, [fname])
 
+    def _extract_stmts(self, icfg: dict, variant: Optional[str], vacuity: bool = False) -> Chunk:
+        """`stmts_from` / `stmts_last`: W12c -- a RUN of consecutive statements of fn X (from the statement that starts with the
+        tokens `stmts_from` through the one that starts with `stmts_last`, each ending at its `;` at depth 0) becomes the body
+        of a named function whose signature and tail expression come from the unit.  Everything around is not verified by
+        this item."""
+        relfile = icfg["file"]
+        src = R.Source(os.path.join(REPO, relfile))
+        it = src.find(icfg["select"])
+        label = icfg.get("label", f"{icfg['select']} / `{icfg['stmts_from']} ..` through `{icfg['stmts_last']} ..`")
+        ct = src.ct
+        i0 = R.find_seq(ct, R.tokenize_pattern(icfg["stmts_from"]), it.body_open + 1, it.body_close)
+        i1 = R.find_seq(ct, R.tokenize_pattern(icfg["stmts_last"]), it.body_open + 1, it.body_close)
+        if len(i0) != 1 or len(i1) != 1 or i1[0] < i0[0]:
+            raise ExtractError(f"{label}: anchors matched {len(i0)} / {len(i1)} times")
+        e = i1[0]
+        depth = 0
+        while True:
+            tt = ct[e].text
+            if tt in R.OPEN:
+                depth += 1
+            elif tt in R.CLOSE:
+                depth -= 1
+            elif tt == ";" and depth == 0:
+                break
+            e += 1
+        raw = src.text[ct[i0[0]].start:ct[e].end]
+        sha = hashlib.sha256(raw.encode()).hexdigest()
+        l1, l2 = src.line_of(ct[i0[0]].start), src.line_of(ct[e].end - 1)
+        self.spans.append({"item": label, "file": relfile, "lines": [l1, l2], "sha256": sha})
+        fname = icfg["wrap_fn"]
+        self.report.add("W12", label, f"statements `{icfg['stmts_from']} ..` through `{icfg['stmts_last']} ..;` wrapped as `{icfg['wrap_sig']}` returning `{icfg.get('wrap_tail', '()')}`; the statements around them are not verified by this item")
+        text = icfg["wrap_sig"] + " { " + icfg.get("wrap_head", "") + "\n" + raw + "\n" + icfg.get("wrap_tail", "") + "\n}"
+        substs = list(self.cfg.get("subst", [])) + list(icfg.get("subst", []))
+        if icfg.get("w6", self.cfg.get("w6", False)):
+            text = w6_message_text(text, self.report, fname)
+        text = w9_panic_args(text, self.report, fname)
+        text = apply_token_substs(text, substs, self.report, fname)
+        text = splice_fn(text, self._splice_for(fname, variant, icfg.get("owner", "")), fname, vacuity)
+        return Chunk("repo", label, text, relfile, (l1, l2), sha, [fname])
+
     def _splice_for(self, fname: str, variant: Optional[str], owner: str = "") -> Splice:
         names = ([f"{owner}.{fname}"] if owner else []) + [fname]
         dirs = (self.dir, os.path.join(VERIF, "contracts", "_common"))
@@ -1580,6 +1620,8 @@ class Unit:
                 ch = self._extract_closure(icfg, variant, vacuity)
             elif "let_of" in icfg:
                 ch = self._extract_let(icfg, variant, vacuity)
+            elif "stmts_from" in icfg:
+                ch = self._extract_stmts(icfg, variant, vacuity)
             elif "block_of" in icfg:
                 ch = self._extract_block(icfg, variant, vacuity)
             else:
